@@ -13,7 +13,7 @@
 (*        of chord group g<g>, whose chord (p) is the key `out`; if `two`  *)
 (*        the group has a second key q bound on another physical key       *)
 (*   [f |-> "multi", a, b]          (multi a b)                            *)
-(*   [f |-> "taphold", a, b]        (tap-hold HT HT a b)   a = tap, b = hold*)
+(*   [f |-> "taphold", a, b]        (tap-hold-press HT HT a b) a=tap b=hold*)
 (*   [f |-> "tapdance", a, b]       (tap-dance TD (a b))                    *)
 (*   [f |-> "fork", a, b, trig]     (fork a b (trig...))  a = left          *)
 (*   [f |-> "switch", cases]        cases : Seq([cond, a, brk]), cond a     *)
@@ -53,7 +53,7 @@ Final(t, lay) ==
     [] t.f = "chord" -> [t |-> "chords", timeout |-> GroupTimeout(t.g), coords |-> GroupCoords(t, lay),
                          chords |-> GroupChords(t, lay)]
     [] t.f = "multi" -> [t |-> "multi", acs |-> FinalMembers(t, lay)]    \* (a multi inside a multi is flattened)
-    [] t.f = "taphold" -> [t |-> "holdtap", timeout |-> HT, thi |-> HT, cfg |-> "default",
+    [] t.f = "taphold" -> [t |-> "holdtap", timeout |-> HT, thi |-> HT, cfg |-> "press",
                            tap |-> Final(t.a, lay), hold |-> Final(t.b, lay)]
     [] t.f = "tapdance" -> [t |-> "tapdance", timeout |-> TD, eager |-> FALSE,
                             acs |-> <<Final(t.a, lay), Final(t.b, lay)>>]
